@@ -233,36 +233,39 @@ Definition eps_band (n : Z) (p : Q) (j : Z) : Q :=
 Definition near (n : Z) (p : Q) (j : Z) (t c : Q) : bool :=
   Qle_bool (Qabs_diff t c) (eps_band n p j * Qmin2 c (1 - c))%Q.
 
-(* is the implementation's answer [g] admissible for (hb, w, p)? *)
-Definition admissible (hb w : Z) (p : Q) (g : option Z) : bool :=
-  match choose hb w p, g with
+Definition opt_Z_eqb (a b : option Z) : bool :=
+  match a, b with
   | None, None => true
-  | Some js, Some jg =>
-    if jg =? js then true
-    else
-      let t := target_of hb in
-      let F := binom_cdf w p in
-      if jg =? js + 1 then (js <? w) && near w p js t (F js)
-      else if jg =? js - 1 then (1 <=? js) && near w p js t (F (js - 1))
-      else false
+  | Some x, Some y => x =? y
   | _, _ => false
   end.
 
-(* the candidates the band admits for (hb, w, p): exact quantile first *)
+(* the seat counts the band admits for (hb, w, p): exact quantile first *)
 Definition candidates (hb w : Z) (p : Q) : list (option Z) :=
   match choose hb w p with
   | None => [None]
   | Some js =>
-    filter (admissible hb w p) [Some js; Some (js + 1); Some (js - 1)]
+    let t := target_of hb in
+    let F := binom_cdf w p in
+    Some js
+    :: (if (js <? w) && near w p js t (F js) then [Some (js + 1)] else [])
+    ++ (if (1 <=? js) && near w p js t (F (js - 1)) then [Some (js - 1)] else [])
   end.
 
-Fixpoint assoc_bytes {A} (k : list Z) (l : list (list Z * A)) : option A :=
+(* is the implementation's answer [g] admissible for (hb, w, p)? *)
+Definition admissible (hb w : Z) (p : Q) (g : option Z) : bool :=
+  existsb (opt_Z_eqb g) (candidates hb w p).
+
+(* byte strings travel as one number: 1 followed by the bytes, base 256 *)
+Definition bytes_key (l : list Z) : Z := fold_left (fun acc b => acc * 256 + b) l 1.
+
+Fixpoint assoc_key {A} (k : Z) (l : list (Z * A)) : option A :=
   match l with
   | [] => None
-  | (k', v) :: r => if list_eq_dec Z.eq_dec k k' then Some v else assoc_bytes k r
+  | (k', v) :: r => if k =? k' then Some v else assoc_key k r
   end.
-
-Definition list_Z_eqb (a b : list Z) : bool := if list_eq_dec Z.eq_dec a b then true else false.
+Definition assoc_bytes {A} (k : list Z) (l : list (Z * A)) : option A :=
+  assoc_key (bytes_key k) l.
 
 Definition sv_code (v : sv) : Z :=
   match v with SvOk => 0 | SvTotalZero => 1 | SvBadProof => 2 | SvNotValidator => 3
@@ -277,33 +280,33 @@ Inductive case :=
 (* choose(hash, w, float64(a/b)); got = None when the call panicked *)
 | CChoose (hb w : Z) (p : Q) (got : option Z)
 (* MakeM *)
-| CMakeM (seed role index : Z) (got : list Z)
+| CMakeM (seed role index : Z) (got : Z)   (* got: bytes_key of the 40 bytes *)
 (* computePriority(hash, j) with the Keccak values of the candidate inputs *)
-| CPrio (hash j : Z) (ktbl : list (list Z * Z)) (got : Z)
+| CPrio (hash j : Z) (ktbl : list (Z * Z)) (got : Z)
 (* VrfSortition: vtbl = (message, Evaluate output) observed; got_j = -1: panic *)
-| CSort (seed index role threshold stake total : Z) (vtbl : list (list Z * Z)) (got_value got_j : Z)
+| CSort (seed index role threshold stake total : Z) (vtbl : list (Z * Z)) (got_value got_j : Z)
 (* VrfVerifySortition: vtbl = (message, ProofToHash output) for the proof used *)
-| CVerify (seed index role subUsers threshold stake total : Z) (vtbl : list (list Z * Z)) (got : Z)
+| CVerify (seed index role subUsers threshold stake total : Z) (vtbl : list (Z * Z)) (got : Z)
 (* VrfVerifyPriority *)
 | CVerifyPrio (seed index role priority subUsers threshold stake total : Z)
-              (vtbl : list (list Z * Z)) (ktbl : list (list Z * Z)) (got : Z).
+              (vtbl : list (Z * Z)) (ktbl : list (Z * Z)) (got : Z).
 
 Definition tbl_fun (tbl : list bool) (h : Z) : bool :=
   if h <? 0 then false else nth (Z.to_nat h) tbl true.
 
-Definition keccak_tbl (ktbl : list (list Z * Z)) (m : list Z) : Z :=
+Definition keccak_tbl (ktbl : list (Z * Z)) (m : list Z) : Z :=
   match assoc_bytes m ktbl with Some v => v | None => 0 end.
 
 (* table-driven stand-ins for the VRF: keys and proofs are trivial, the value
    is whatever the implementation returned for that message *)
-Definition ev_tbl (vtbl : list (list Z * Z)) (_ : unit) (m : list Z) : Z * unit :=
+Definition ev_tbl (vtbl : list (Z * Z)) (_ : unit) (m : list Z) : Z * unit :=
   (match assoc_bytes m vtbl with Some v => v | None => -1 end, tt).
-Definition p2h_tbl (vtbl : list (list Z * Z)) (_ : unit) (m : list Z) (_ : unit) : option Z :=
+Definition p2h_tbl (vtbl : list (Z * Z)) (_ : unit) (m : list Z) (_ : unit) : option Z :=
   assoc_bytes m vtbl.
 
 (* the seat count every regime of the band would give: hash value looked up
    under the model's own message *)
-Definition cands_for (vtbl : list (list Z * Z)) (seed index role threshold stake total : Z)
+Definition cands_for (vtbl : list (Z * Z)) (seed index role threshold stake total : Z)
   : list (option Z) :=
   if total =? 0 then [None]
   else match assoc_bytes (make_m seed role index) vtbl with
@@ -315,7 +318,7 @@ Definition case_ok (c : case) : bool :=
   match c with
   | CSearch n tbl got => search n (tbl_fun tbl) =? got
   | CChoose hb w p got => admissible hb w p got
-  | CMakeM seed role index got => list_Z_eqb (make_m seed role index) got
+  | CMakeM seed role index got => bytes_key (make_m seed role index) =? got
   | CPrio hash j ktbl got =>
     compute_priority (keccak_tbl ktbl) hash j =? got
   | CSort seed index role threshold stake total vtbl got_value got_j =>
